@@ -277,8 +277,10 @@ def main():
     m = {
         "version": 1,
         "setup_cmd": "python3 alv.py setup",
-        "hooks": {"guard": "ALVERIF_HOOKS", "enable": "checks compile /repo/src/*.c with -DALVERIF_HOOKS (no guarded code exists in the sources)",
-                  "baseline_off_cmd": "python3 tools/baseline.py", "source_commits": [], "add_only": True},
+        "hooks": {"guard": "ALVERIF_HOOKS", "enable": "checks compile /repo/src/*.c with -DALVERIF_HOOKS; the only guarded code is the macro "
+                            "ALVERIF_INDEX_STORE in src/assemblyline.c (a weak callback between two index table stores, used by harness/thrdrv.c "
+                            "to schedule threads deterministically for C18)",
+                  "baseline_off_cmd": "python3 tools/baseline.py", "source_commits": ["707a1f5"], "add_only": True},
         "engines": [{"name": "lean-al", "path": "lean", "serves_properties": [c["property_id"] for c in checks],
                      "kind_free_text": "Lean 4 model (AL.Impl) + theorems (AL.Properties) + line-protocol driver; alv.py/checks.py tie it to /repo"}],
         "checks": checks,
